@@ -83,6 +83,7 @@ type Monitor struct {
 	// ghost state
 	ghostObsH            map[string]uint64 // chain -> external height of the last applied event (C13)
 	mxg                  *mxGhost                   // C08, Minter side (mloop profile)
+	mxFunded             map[string]*big.Int        // C01 in the mloop profile: coins handed out by `fund`
 	ghostConfs           map[string]map[string]bool // C08: tx key -> lower(external address) of every confirmation the message server accepted
 	loopMode             bool              // "world loop": executions happen on the ghost external chain, the hub only hears of them
 	loopTainted          bool              // an execution claim the ghost contracts could not have emitted: history is not truthful
@@ -1606,9 +1607,19 @@ func (m *Monitor) checkC13(g *Gen, w []string, out string, b, a *snapshot) {
 		executed := map[string]uint64{} // token -> highest executed nonce in this op
 		exact := map[string]bool{}
 		if w[0] == "end" {
+			// events are applied in nonce order: once a newer batch of a token has been applied (ethereum/bsc), the older
+			// ones are back in the pool and a later execution event for one of them finds no batch
+			newest := map[string]uint64{}
 			for _, r := range appliedEvents(b, a, c) {
 				if ev, ok := r.event.(*types.BatchExecutedEvent); ok {
+					if c != "minter" && ev.BatchNonce < newest[ev.ExternalCoinId] {
+						g.stats["C13:execution-event-for-a-batch-withdrawn-earlier-in-the-block"]++
+						continue
+					}
 					exact[fmt.Sprintf("%s/%d", ev.ExternalCoinId, ev.BatchNonce)] = true
+					if ev.BatchNonce > newest[ev.ExternalCoinId] {
+						newest[ev.ExternalCoinId] = ev.BatchNonce
+					}
 				}
 			}
 		}
@@ -1892,6 +1903,10 @@ func (e *extWorld) execute(gb *ghostBatch) *big.Int {
 // custody bookkeeping: the harness is the external world; an emitted deposit locks `amount`,
 // an execution event for an existing batch pays out the batch's amounts.
 func (m *Monitor) checkC01(g *Gen, w []string, out string, b, a *snapshot) {
+	if g.env.mx != nil || g.mxProfile {
+		m.checkC01Mx(g, w, out, b, a)
+		return
+	}
 	if w[0] == "world" && len(w) > 1 && w[1] == "loop" {
 		m.loopMode = true
 	}
